@@ -433,8 +433,11 @@ def _dt_of(t, ms, naive):
     dt = datetime.datetime.fromtimestamp(0, dateutil.tz.UTC) + datetime.timedelta(seconds=secs)
     if ms:
         dt += datetime.timedelta(milliseconds=t % 1000)
-    if naive:
+    if naive is True:
         dt = dt.replace(tzinfo=None)
+    elif naive not in (False, None):
+        # an aware datetime with a non-UTC fixed offset (minutes) denoting the SAME instant
+        dt = dt.astimezone(datetime.timezone(datetime.timedelta(minutes=int(naive))))
     return dt
 
 
@@ -545,7 +548,8 @@ def ts_cases(rng, tier):
         for k, ms in ((8, 0), (4, 0), (8, 1)):
             bo = rng.choice(BOS) if k != 4 else 'network'
             tt = t * 1000 + rng.randrange(1000) if ms else t
-            cases.append({'kind': 'ts', 'bo': bo, 'k': k, 'ms': ms, 't': tt, 'naive': bool(rng.getrandbits(1))})
+            cases.append({'kind': 'ts', 'bo': bo, 'k': k, 'ms': ms, 't': tt,
+                          'naive': rng.choice([True, False, 60, -300, 330, 765, -720])})
     for k, ms in ((8, 0), (4, 0), (8, 1)):
         for bo in BOS:
             cases.append({'kind': 'ts', 'bo': bo, 'k': k, 'ms': ms, 't': None, 'naive': False})
@@ -698,7 +702,8 @@ def run(run, driver_ok=True, deep=False):
         t = rng.randrange(0, 2 ** 32 - 1)
         ms = rng.random() < 0.6
         dense.append({'kind': 'ts', 'bo': rng.choice(BOS), 'k': 8 if ms else rng.choice([4, 8]), 'ms': int(ms),
-                      't': t * 1000 + rng.randrange(1000) if ms else t, 'naive': bool(rng.getrandbits(1))})
+                      't': t * 1000 + rng.randrange(1000) if ms else t,
+                      'naive': rng.choice([True, False, 60, -300, 330, 765, -720])})
         if dense[-1]['k'] == 4:
             dense[-1]['bo'] = rng.choice(BOS)
     for c in dense[:50]:
